@@ -1,29 +1,42 @@
 """
 C06 — emphasis nesting equals the specification's delimiter-run algorithm.
 
-Exploration: the real inline parser against an independent, declarative implementation of the
-CommonMark 0.30 delimiter-run procedure (harness/spec_emph.py, written from section 6.2 of the
-specification: flanking from the definitions, the underscore restrictions, the rule of three on
-ORIGINAL run lengths, nearest admissible opener - no openers_bottom optimisation), exhaustively
-over small alphabets and randomly over a wide one.
+Theorems (lean/Mistletoe/Props/C06.lean, lemmas in Proofs/CoreTotal.lean) over the model of core_tokens.py
+(find_core_tokens, find_link_image, process_emphasis, Delimiter.remove, the link matchers), for EVERY text and
+every table of link definitions:
+  * `C06_core_never_fails` / `C06_tokenize_inner_total`: the inline parser returns - none of its index accesses
+    can raise and the fuels of its two loops suffice (the clause "no such text makes the parser fail"; the
+    historical crash '**a****b*' is a kernel-evaluated example);
+  * `C06_emphasis_wellformed`, `C06_emphasis_delimiters`: every <em>/<strong> match has a non-empty content
+    between two delimiter strings of equal length 1 (em) or 2 (strong) made of one and the same character * or _;
+  * `C06_emphasis_nested`, `C06_emphasis_disjoint_or_nested`: any two matches are disjoint or properly nested.
+That the CHOICE of matches is the one the specification's algorithm makes (flanking, underscore restrictions, rule
+of three on original lengths, nearest admissible opener) is not proved: it is decided by exploration against an
+independent declarative implementation of section 6.2 (harness/spec_emph.py), exhaustively over small alphabets.
+Units: `inline` - the real tokenize_inner (token tree with attributes) against the model on the exhaustive
+small-alphabet strings and a random sample of the wide ones.
 """
 import itertools
 import unicodedata
 
 import common
 import impl
+import inline_units
 import spec_emph
 
 ID = 'C06'
-LEVEL = 'exploration'
-RULE = ('exhaustively all strings over {a, space, *, _, .} up to length 7 (quick) / 9 (thorough) and over {a,*}, {a,_} up to '
-        'length 12 / 14; random strings up to length 40 over a wider alphabet (Unicode punctuation and whitespace, digits, '
-        'letters). Distinct by string; non-trivial when the string has at least two delimiter runs')
+EXTRA_MODULES = ['Mistletoe.Proofs.CoreTotal']
+RULE = ('exhaustively all strings over {a, space, *, _, .} up to length 7 (quick) / 9 (thorough), over {a,*,_,\\,!,[} up to '
+        'length 6 / 7 and over {a,*}, {a,_} up to length 12 / 14; random strings up to length 40 over a wider alphabet (Unicode '
+        'punctuation and whitespace, digits, letters, backslash, "!", "["). Distinct by string; non-trivial when the string '
+        'has at least two delimiter runs')
 TRUSTED = ['harness/spec_emph.py is the reading of CommonMark 0.30 section 6.2 used as oracle; it is itself checked against '
            'the emphasis examples of the vendored corpus on every run']
-ASSUMPTIONS = ['texts contain no other inline syntax (no backticks, closing brackets, angle brackets, ampersands); backslash escapes, "!" and "[" are included']
-PARTIAL = ['interim level: exhaustive small-scope + random differential against the specification oracle. The Lean model of '
-           'process_emphasis, the flanking theorem and the refinement to the declarative procedure are the planned upgrade']
+ASSUMPTIONS = ['texts contain no other inline syntax (no backticks, closing brackets, angle brackets, ampersands); backslash '
+               'escapes, "!" and "[" are included']
+PARTIAL = ['proved: the parser never fails; matches are well-formed, made of one delimiter character, and nest. NOT proved: '
+           'that the matches chosen are those of the specification algorithm - explored exhaustively over small alphabets '
+           'and randomly over a wide one against the independent oracle']
 
 WIDE = list('ab1 .,;:!?()-"\'') + ['\\', '[', '!', '*', '_', '*', '_', '\xa0', ' ', ' ', '«', '»', '“', '”', '…', '—', 'é', 'Ω', '中', '¡', '·', '　']
 
@@ -73,7 +86,20 @@ def finding_still_fails(finding):
 
 
 def units(ctx):
-    pass
+    texts = []
+    for k in range(1, (7 if not ctx.thorough else 8) + 1):
+        for tup in itertools.product('a *_.', repeat=k):
+            if tup[0] != ' ' and tup[-1] != ' ' and any(c in '*_' for c in tup):
+                texts.append(''.join(tup))
+    for k in range(1, (6 if not ctx.thorough else 7) + 1):
+        for tup in itertools.product('a*_\\![', repeat=k):
+            texts.append(''.join(tup))
+    rng = ctx.rng('units')
+    for _ in range(ctx.budget(6000, 60000)):
+        s = ''.join(rng.choice(WIDE + ['`', ']', '(', ')', '<', '>', '&', ';', '~', '\n']) for _ in range(rng.randint(2, 40))).strip()
+        if s:
+            texts.append(s)
+    inline_units.run(ctx, texts)
 
 
 def corpus_selfcheck(ctx):
